@@ -477,4 +477,184 @@ theorem lhaReadHeader_l2 (crc : Bytes → UInt16) (m : LhaMember) (hm : m.Legal)
   rw [lha_post H 2 _ _ m.name hname]
   simp [lhaSeenName, lhaSeenOs, hl]
 
+
+/-! ## the walk -/
+
+theorem lhaReadHeader_entry (crc : Bytes → UInt16) (m : LhaMember) (hm : m.Legal) (rest : Bytes) :
+    ∃ raw, lhaReadHeader (lhaEntry crc m ++ rest) =
+      some (plainHdr raw m.level m.data.length (lhaSeenOs m) (lhaSeenName m), m.data ++ rest) := by
+  have := hm.lvl
+  rcases (by omega : m.level = 0 ∨ m.level = 1 ∨ m.level = 2) with h | h | h
+  · exact lhaReadHeader_l01 crc m hm (Or.inl h) rest
+  · exact lhaReadHeader_l01 crc m hm (Or.inr h) rest
+  · exact lhaReadHeader_l2 crc m hm h rest
+
+theorem nullRead_ok : ∀ (fuel k : Nat) (d T acc : Bytes), d.length = k → k + 1 ≤ fuel →
+    lhaNullRead fuel (d ++ T) k k acc = some (acc ++ d) := by
+  intro fuel
+  induction fuel with
+  | zero => intro k d T acc _ h; omega
+  | succ f ih =>
+    intro k d T acc hd hf
+    rw [lhaNullRead]
+    by_cases hk : k = 0
+    · subst hk
+      have : d = [] := List.eq_nil_of_length_eq_zero hd
+      simp [this]
+    · simp only [hk, if_false]
+      have hb : ¬ min 1024 k = 0 := by omega
+      have hs : ¬ (d ++ T).length < min 1024 k := by simp only [List.length_append]; omega
+      simp only [hb, hs, if_false]
+      have hble : min 1024 k ≤ d.length := by omega
+      have h1 : (d ++ T).drop (min 1024 k) = d.drop (min 1024 k) ++ T := List.drop_append_of_le_length hble
+      have h2 : ((d ++ T).take (min 1024 k)).take k = d.take (min 1024 k) := by
+        rw [List.take_append_of_le_length hble, List.take_take]
+        congr 1; omega
+      have h3 : k - min k (min 1024 k) = k - min 1024 k := by omega
+      rw [h1, h2, h3, ih (k - min 1024 k) (d.drop (min 1024 k)) T _ (by simp; omega) (by omega)]
+      simp [List.append_assoc]
+
+theorem toLowerB_ne0 (b : UInt8) (h : b ≠ 0) : toLowerB b ≠ 0 := by
+  unfold toLowerB
+  split
+  · next hc =>
+    intro h0
+    have := congrArg UInt8.toNat h0
+    rw [UInt8.toNat_add] at this
+    simp at this; omega
+  · exact h
+
+theorem lhaSeenName_noNul (m : LhaMember) (hn : noNul m.name) : noNul (lhaSeenName m) := by
+  unfold lhaSeenName
+  split
+  · intro x hx
+    obtain ⟨y, hy, rfl⟩ := List.mem_map.mp hx
+    exact toLowerB_ne0 y (hn y hy)
+  · exact hn
+
+theorem lhaWalk_skip (crc : Bytes → UInt16) (dec : Bytes → Bool → Bytes → Nat → Option Bytes)
+    (pre : List LhaMember) : ∀ (T : Bytes) (fuel : Nat),
+    (∀ x ∈ pre, x.Legal ∧ excludeMatch (lhaSeenName x) = true) →
+    lhaWalk dec (fuel + pre.length) (pre.flatMap (lhaEntry crc) ++ T) = lhaWalk dec fuel T := by
+  induction pre with
+  | nil => intro T fuel _; simp
+  | cons x pre ih =>
+    intro T fuel hpre
+    obtain ⟨hx, hex⟩ := hpre x (by simp)
+    obtain ⟨raw, hr⟩ := lhaReadHeader_entry crc x hx (pre.flatMap (lhaEntry crc) ++ T)
+    have hfu : fuel + (x :: pre).length = (fuel + pre.length) + 1 := by simp; omega
+    rw [hfu, List.flatMap_cons, List.append_assoc, lhaWalk, hr]
+    have hcs : cstr (lhaSeenName x) = lhaSeenName x := cstr_self _ (lhaSeenName_noNul x hx.name.nul)
+    simp only [plainHdr, Option.getD_some, hcs, hex, or_true, if_true, List.drop_left]
+    exact ih T fuel (fun y hy => hpre y (by simp [hy]))
+
+theorem lhaWalk_hit (crc : Bytes → UInt16) (dec : Bytes → Bool → Bytes → Nat → Option Bytes) (m : LhaMember)
+    (hm : m.Legal) (hx : excludeMatch (lhaSeenName m) = false) (hne : m.data ≠ [])
+    (hlim : m.data.length ≤ depackLimit) (T : Bytes) (fuel : Nat) :
+    lhaWalk dec (fuel + 1) (lhaEntry crc m ++ T) = some m.data := by
+  obtain ⟨raw, hr⟩ := lhaReadHeader_entry crc m hm T
+  rw [lhaWalk, hr]
+  have hcs : cstr (lhaSeenName m) = lhaSeenName m := cstr_self _ (lhaSeenName_noNul m hm.name.nul)
+  have hnd : lhaLh0 ≠ lhaDirMethod := by decide
+  have hlen : ¬ (m.data.length = 0 ∨ m.data.length > depackLimit) := by
+    have : m.data.length ≠ 0 := fun h => hne (List.eq_nil_of_length_eq_zero h)
+    omega
+  have hmac : lhaSeenOs m ≠ 0x6d := by
+    unfold lhaSeenOs; split
+    · decide
+    · intro h; exact hm.mac (UInt8.toNat_inj.mp h)
+  have hst : lhaIsStored lhaLh0 = true := by decide
+  simp only [plainHdr, Option.getD_some, hcs, hx, hnd, Bool.false_eq_true, or_self, if_false, hlen, hst, hmac,
+    ne_eq, not_false_eq_true, and_self, if_true]
+  have := nullRead_ok (m.data.length + 1) m.data.length m.data T [] rfl (Nat.le_refl _)
+  simpa using this
+
+theorem lhaEntry_match (crc : Bytes → UInt16) (m : LhaMember) (hm : m.Legal) (T : Bytes) :
+    lhaHdrMatch (lhaEntry crc m ++ T) 0 = true ∧ 13 ≤ (lhaEntry crc m).length := by
+  have := hm.lvl
+  rcases (by omega : m.level = 0 ∨ m.level = 1 ∨ m.level = 2) with h | h | h
+  · constructor
+    · simp [lhaHdrMatch, bAt, lhaEntry, h, lhaLh0]
+    · simp [lhaEntry, h, lhaLh0, le32_length]; omega
+  · constructor
+    · simp [lhaHdrMatch, bAt, lhaEntry, h, lhaLh0]
+    · simp [lhaEntry, h, lhaLh0, le32_length]; omega
+  · have h2 : ¬ m.level = 0 ∧ ¬ m.level = 1 := by omega
+    constructor
+    · simp [lhaHdrMatch, bAt, lhaEntry, h2.1, h2.2, lhaLh0, le16]
+    · simp [lhaEntry, h2.1, h2.2, lhaLh0, le32_length, le16_length]; omega
+
+theorem lhaEntry_pos (crc : Bytes → UInt16) (m : LhaMember) : 0 < (lhaEntry crc m).length := by
+  unfold lhaEntry
+  split
+  · simp
+  · split
+    · simp
+    · simp only [List.length_append, le16_length]; omega
+
+theorem lha_flatMap_length_ge (crc : Bytes → UInt16) (ms : List LhaMember) :
+    ms.length ≤ (ms.flatMap (lhaEntry crc)).length := by
+  induction ms with
+  | nil => simp
+  | cons x ms ih =>
+    have := lhaEntry_pos crc x
+    simp only [List.flatMap_cons, List.length_append, List.length_cons]; omega
+
+/-- **LHA framing, stored members, header levels 0 / 1 / 2**: `m0` is the first member of the archive -/
+theorem unlha_wrap (crc : Bytes → UInt16) (dec : Bytes → Bool → Bytes → Nat → Option Bytes)
+    (pre post : List LhaMember) (m m0 : LhaMember) (rest0 : List LhaMember)
+    (h0 : pre ++ m :: post = m0 :: rest0) (hm0 : m0.Legal)
+    (hpre : ∀ x ∈ pre, x.Legal ∧ excludeMatch (lhaSeenName x) = true)
+    (hm : m.Legal) (hx : excludeMatch (lhaSeenName m) = false) (hne : m.data ≠ [])
+    (hlim : m.data.length ≤ depackLimit) :
+    unlha dec (lhaWrap crc (pre ++ m :: post)) = some m.data := by
+  have hskip : skipSfx (lhaWrap crc (pre ++ m :: post)) = some 0 := by
+    rw [h0]
+    unfold lhaWrap skipSfx
+    rw [List.flatMap_cons, List.append_assoc]
+    obtain ⟨hmt, h13⟩ := lhaEntry_match crc m0 hm0 (rest0.flatMap (lhaEntry crc) ++ [0])
+    rw [skipSfxGo]
+    have hc : ¬ (0 + 13 > (lhaEntry crc m0 ++ (rest0.flatMap (lhaEntry crc) ++ [0])).length ∨ 0 ≥ lhaSfxLimit) := by
+      simp only [List.length_append]; unfold lhaSfxLimit; omega
+    simp only [hc, if_false, hmt, and_self, if_true]
+  unfold unlha
+  rw [hskip]
+  simp only [List.drop_zero]
+  unfold lhaWrap
+  rw [List.flatMap_append, List.flatMap_cons, List.append_assoc, List.append_assoc]
+  generalize hT : post.flatMap (lhaEntry crc) ++ [0] = T
+  have hge := lha_flatMap_length_ge crc pre
+  have hpos := lhaEntry_pos crc m
+  obtain ⟨k, hk⟩ : ∃ k, (pre.flatMap (lhaEntry crc) ++ (lhaEntry crc m ++ T)).length + 1 = (k + 1) + pre.length :=
+    ⟨(pre.flatMap (lhaEntry crc) ++ (lhaEntry crc m ++ T)).length - pre.length, by
+      simp only [List.length_append]; omega⟩
+  rw [hk, lhaWalk_skip crc dec pre _ (k + 1) hpre]
+  exact lhaWalk_hit crc dec m hm hx hne hlim T k
+
+
+theorem lhaEntry_level_byte (crc : Bytes → UInt16) (m : LhaMember) (hm : m.Legal) (T : Bytes) :
+    bAt (lhaEntry crc m ++ T) 20 = m.level := by
+  have := hm.lvl
+  rcases (by omega : m.level = 0 ∨ m.level = 1 ∨ m.level = 2) with h | h | h
+  · simp [bAt, lhaEntry, h, lhaLh0, le32]
+  · simp [bAt, lhaEntry, h, lhaLh0, le32]
+  · have h2 : ¬ m.level = 0 ∧ ¬ m.level = 1 := by omega
+    simp [bAt, lhaEntry, h2.1, h2.2, lhaLh0, le32, le16, h]
+
+theorem lhaWrap_length (crc : Bytes → UInt16) (m0 : LhaMember) (rest : List LhaMember) (hm : m0.Legal) :
+    22 ≤ (lhaWrap crc (m0 :: rest)).length := by
+  have := hm.lvl
+  have hne := hm.name.ne
+  have hnpos : 0 < m0.name.length := List.length_pos_iff.mpr hne
+  unfold lhaWrap
+  rw [List.flatMap_cons]
+  simp only [List.length_append]
+  have : 23 ≤ (lhaEntry crc m0).length := by
+    rcases (by omega : m0.level = 0 ∨ m0.level = 1 ∨ m0.level = 2) with h | h | h
+    · simp [lhaEntry, h, lhaLh0, le32_length, le16_length]; omega
+    · simp [lhaEntry, h, lhaLh0, le32_length, le16_length]; omega
+    · have h2 : ¬ m0.level = 0 ∧ ¬ m0.level = 1 := by omega
+      simp [lhaEntry, h2.1, h2.2, lhaLh0, le32_length, le16_length]; omega
+  omega
+
 end Xmp.Container
